@@ -3574,9 +3574,10 @@ Hgetntinfo(const int32 numbertype, hdf_ntinfo_t *nt_info)
 int
 hi_close_stdio(FILE **f)
 {
-    if (EOF == fclose(*f))
-        return FAIL;
+    int ret_value = (EOF == fclose(*f)) ? FAIL : SUCCEED;
+
+    /* the stream is gone whether or not the close succeeded; never close it again */
     *f = NULL;
-    return SUCCEED;
+    return ret_value;
 }
 #endif
